@@ -590,6 +590,12 @@ func (w *World) doByz() {
 	// invalid entry legitimately leaves a hole, and the rest of the world assumes closed logs
 	dst := w.clone(rcv, true)
 	dstSet := copySet(rcv.Set)
+	if anyBad && r.Choose("byz-into-real-node", 2) == 0 {
+		// a merge that must be refused can target the replica itself: it has to leave it untouched,
+		// and the rest of the run continues on whatever it really left
+		dst = rcv.Log
+		r.Probe("refused-merge-into-live-replica")
+	}
 	before := w.observe(dst)
 	lenBefore := dst.Len()
 	_, err := dst.Join(evil, -1)
@@ -851,6 +857,31 @@ func (w *World) appendWithDiskError(n *Node, pl []byte, pc int) {
 	}
 	if w.St.NumBlocks() != blocks {
 		r.Violate("C17:failed-append-wrote", "an append whose block write failed left %d new blocks", w.St.NumBlocks()-blocks)
+	}
+	n.ClockAhead = true
+}
+
+// doRefused: the replica's own access controller refuses one append; the log must be
+// observably unchanged, and whatever the attempt left behind must not disturb later operations.
+func (w *World) doRefused() {
+	n := w.pickUp("refuse-node")
+	if n == nil {
+		return
+	}
+	r := w.R
+	pl := w.payload()
+	before := w.observe(n.Log)
+	n.Pol.kind, n.Pol.prefix = 2, pl
+	e, err := n.Log.Append(w.ctx, pl, &ipfslog.AppendOptions{PointerCount: w.pointerCount()})
+	n.Pol.kind, n.Pol.prefix = 0, nil
+	r.Fault("append-refused")
+	r.Logf("refused-append n%d err=%v", n.Idx, err != nil)
+	if err == nil {
+		r.Violate(w.P.Prop+":append-admitted-denied", "Append succeeded (%v) although the log's access controller denies it", e.GetHash())
+	}
+	_, strict := w.M.Linear(n.Set, w.ByHash)
+	if d := w.sameObs(before, w.observe(n.Log), strict); d != "" {
+		r.Violate(w.P.Prop+":denied-append-changed-log", "a refused append changed the log: %s", d)
 	}
 	n.ClockAhead = true
 }
